@@ -49,9 +49,12 @@ def convection_order(ctx, rng, idx):
     n0 = int(rng.choice([40, 48, 56])) * (2 if (rname0 == "extrapol1" or rname0.startswith("muscl")) else 1)
     levels = [n0 * 2 ** j for j in range(4)]
     T = float(rng.uniform(0.15, 0.3)) * L / abs(a)
-    errs, hs = [], []
+    errs, hs, emax = [], [], []
+    x0 = float(rng.choice([0.0, np.round(rng.uniform(-3, 3), 3), -L / 2]))      # the origin of the periodic domain is arbitrary
+    mk = int(rng.integers(4))                                                  # ... and so is the class that builds the uniform mesh
     for n in levels:
-        mesh = fmesh.unimesh(ncell=n, length=L)
+        mesh = [lambda: fmesh.unimesh(ncell=n, length=L, x0=x0), lambda: fmesh.mesh1d(ncell=n, length=L, x0=x0),
+                lambda: fmesh.morphedmesh(ncell=n, length=L, x0=x0), lambda: fmesh.refinedmesh(ncell=n, length=L, ratio=1.0)][mk]()
         model = conv.model(a)
         disc = md.fvm(model, mesh, num_factory())
         f0 = ffield.fdata(model, mesh, [_cellavg_modes(mesh.xf, modes, 0.0)])
@@ -61,14 +64,23 @@ def convection_order(ctx, rng, idx):
         fe = sol[-1]
         exact = _cellavg_modes(mesh.xf, modes, a * fe.time)
         errs.append(float(np.sum(mesh.vol() * np.abs(fe.data[0] - exact)) / L))
+        emax.append(float(np.max(np.abs(fe.data[0] - exact))))
         hs.append(L / n)
-    errs, hs = np.array(errs), np.array(hs)
+    errs, hs, emax = np.array(errs), np.array(hs), np.array(emax)
     slope = float(np.polyfit(np.log(hs), np.log(errs), 1)[0])
     last = float(np.log(errs[-2] / errs[-1]) / np.log(2))
     lo, hi = BANDS[rname0]
-    ctx.describe(recon=rname0 if kk is None else "extrapolk(%g)" % kk, convcoef=a, length=L, modes=modes, integrator=iname, levels=levels, T=T, errors=errs, slope=slope, last_order=last)
+    ctx.describe(recon=rname0 if kk is None else "extrapolk(%g)" % kk, convcoef=a, length=L, x0=x0, mesh_class=["unimesh", "mesh1d", "morphedmesh(identity)", "refinedmesh(ratio=1)"][mk], modes=modes, integrator=iname, levels=levels, T=T, errors=errs, slope=slope, last_order=last)
     slope = float(np.polyfit(np.log(hs[1:]), np.log(errs[1:]), 1)[0])      # three finest levels
     ctx.true("order", np.all(np.isfinite(errs)) and lo <= slope <= hi, "convection-order/%s/outside-design-band" % rname0, {"slope": slope, "band": [lo, hi], "errors": errs, "levels": levels}, cls="order:" + rname0)
+    if not rname0.startswith("muscl"):
+        # linear schemes: the order holds in the maximum norm too (a first-order error confined to a few cells -- at the periodic
+        # seam, say -- is invisible in L1 for a second-order scheme); limiters clip extrema, so their maximum-norm order is lower
+        smax = float(np.polyfit(np.log(hs[1:]), np.log(emax[1:]), 1)[0])
+        ctx.true("order-maxnorm", np.all(np.isfinite(emax)) and lo <= smax <= hi, "convection-order/%s/maximum-norm-order-outside-design-band" % rname0, {"slope": smax, "band": [lo, hi], "max errors": emax, "levels": levels}, cls="order:" + rname0)
+        dm = ctx.info.setdefault("observed_slopes_maxnorm", {})
+        dm.setdefault(rname0, [9.0, -9.0])
+        dm[rname0] = [min(dm[rname0][0], smax), max(dm[rname0][1], smax)]
     ctx.true("decrease", np.all(errs[1:] < errs[:-1]), "convection-order/%s/error-not-decreasing" % rname0, {"errors": errs}, cls="order:" + rname0)
     d = ctx.info.setdefault("observed_slopes", {})
     d.setdefault(rname0, [9.0, -9.0])
